@@ -32,7 +32,8 @@ ASSUMPTIONS = [
 
 def strategy(tier):
     return sched.sched_specs(quiet=True, adaptive=False, force_last=False,
-                             precisions=(None, None, None, 1), state_cond=True)
+                             precisions=(None, None, None, 1), state_cond=True,
+                             twin_ok=True)
 
 
 def close(a, b, exact):
@@ -83,6 +84,25 @@ def run_case(spec):
                     res.fail(kind, '%s: update %d of %s computed for [%r,%r] '
                              'applied at %r' % (what, k + 1, name, iv['start'],
                                                 iv['end'], lst[0][1]))
+        # two ports of one process on one store: every update of each port
+        twins = {p['name'] for p in spec['procs'] if p.get('twin')}
+        if twins:
+            res.label('twin_ports')
+            twin_applied = {}
+            for seq, tag, t, value in parsed['applies']:
+                if tag == 'twin:t':
+                    twin_applied.setdefault(value, []).append(t)
+            for token, (name, k, iv) in returned.items():
+                if name not in twins:
+                    continue
+                due = iv['end'] <= final + (0 if exact else 1e-9)
+                n = len(twin_applied.get(token, []))
+                if due and n != 2:
+                    res.fail('twin_ports', 'update %d of %s went to two ports '
+                             'wired to one store: applied %d times, expected '
+                             '2' % (k + 1, name, n),
+                             'topology.py:inverse_topology')
+                    break
         for name, lst in ivs.items():
             seqs = [own_applied[iv['token']][0][0] for iv in lst
                     if iv['token'] in own_applied]
@@ -114,6 +134,16 @@ def run_case(spec):
                 if got != tot:
                     res.fail('emitted', 'row at %r: shared sum = %r, expected %r'
                              % (T, got, tot))
+                if twins:
+                    want = 2 * sum(iv['token'] for n2 in twins
+                                   for iv in ivs.get(n2, [])
+                                   if iv['end'] <= T + (0 if exact else 1e-9))
+                    got = data.get('twin', {}).get('sub', {}).get('t')
+                    if got != want:
+                        res.fail('emitted', 'row at %r: twin/sub/t = %r, '
+                                 'expected %r (two ports x returned updates)'
+                                 % (T, got, want),
+                                 'topology.py:inverse_topology')
             if res.violations:
                 break
     finally:
